@@ -74,7 +74,8 @@ func run() error {
 		}
 
 		var bss integrityblock.ISigningStrategy = integrityblock.NewParsedEd25519KeySigningStrategy(ed25519privKey)
-		return SignWithIntegrityBlockWithCmdFlags(verifWrapStrategy(bss))
+		bss = verifWrapStrategy(bss)
+		return SignWithIntegrityBlockWithCmdFlags(bss)
 
 	case dumpWebBundleIdSubCmdName:
 		dumpWebBundleIdCmd.Parse(os.Args[2:])
